@@ -25,3 +25,75 @@ Theorem C19_order_is_function_of_input :
     /\ forall (s : seed) (h : history), expand_model E hash_facts s h x = flat_map (render_group x) order.
 Proof. exact (Proofs.order_is_function_of_input hash_facts). Qed.
 Print Assumptions C19_order_is_function_of_input.
+
+(** the invariant over arbitrary sequences of expansions (any seed, any starting state, any items at any positions
+    in any order): every expansion is the pure function of its derive input *)
+Theorem C19_process_is_pure :
+  facts_ok hash_facts = true ->
+  forall (E : externals) (ps : list located) (s : seed) (st : pstate),
+    run_process E hash_facts s st ps = map (fun p => expand_pure_b E (snd p)) ps.
+Proof. exact (Proofs.process_is_pure hash_facts). Qed.
+Print Assumptions C19_process_is_pure.
+
+Theorem C19_same_input_same_expansion :
+  facts_ok hash_facts = true ->
+  forall (E : externals) (x : input) (s1 s2 : seed) (st1 st2 : pstate) (pre1 post1 pre2 post2 : list located)
+         (pos1 pos2 : N),
+    nth (List.length pre1) (run_process E hash_facts s1 st1 (pre1 ++ (pos1, x) :: post1)) []
+    = nth (List.length pre2) (run_process E hash_facts s2 st2 (pre2 ++ (pos2, x) :: post2)) [].
+Proof. exact (Proofs.same_input_same_expansion hash_facts). Qed.
+Print Assumptions C19_same_input_same_expansion.
+
+Theorem C19_interleaving_irrelevant :
+  facts_ok hash_facts = true ->
+  forall (E : externals) (ps qs : list located) (s1 s2 : seed) (st1 st2 : pstate),
+    Permutation (map snd ps) (map snd qs) ->
+    Permutation (run_process E hash_facts s1 st1 ps) (run_process E hash_facts s2 st2 qs).
+Proof. exact (Proofs.interleaving_irrelevant hash_facts). Qed.
+Print Assumptions C19_interleaving_irrelevant.
+
+(** iteration order in the bucket-table model of HashMap/HashSet (entry / insert / extend / iter / drain) *)
+Theorem C19_bucket_order_is_function_of_input :
+  facts_ok hash_facts = true ->
+  forall (E : externals) (x : input),
+  exists order : list (str * list str),
+    order = t_iter (ext_hash E) fixed_seed (t_fill t_new (groups_of E x))
+    /\ Permutation (groups_of E x) order
+    /\ Sorted (fun a b => bucket (ext_hash E) fixed_seed (t_fit 0 (List.length (groups_of E x))) (fst a)
+                          <= bucket (ext_hash E) fixed_seed (t_fit 0 (List.length (groups_of E x))) (fst b)) order
+    /\ forall (s : seed) (h : history) (scratch : table),
+         expand_model_b E hash_facts s h scratch x = flat_map (render_group x) order.
+Proof. exact (Proofs.bucket_order_is_function_of_input hash_facts). Qed.
+Print Assumptions C19_bucket_order_is_function_of_input.
+
+Theorem C19_position_irrelevant :
+  facts_ok hash_facts = true ->
+  forall (E : externals) (s : seed) (h : history) (pos1 pos2 : N) (x : input),
+    expand_model E hash_facts s ([pos1] :: h) x = expand_model E hash_facts s ([pos2] :: h) x.
+Proof. exact (Proofs.position_irrelevant hash_facts). Qed.
+Print Assumptions C19_position_irrelevant.
+
+(** the facts are not vacuous: dropping any one of them lets the model's output vary *)
+Theorem C19_every_state_kind_matters :
+  forall k : state_kind,
+    facts_ok (facts_with_state k) = false
+    /\ exists h1 h2 : history,
+         expand_model toy_ext (facts_with_state k) 0 h1 ex_input <> expand_model toy_ext (facts_with_state k) 0 h2 ex_input.
+Proof. exact Proofs.every_state_kind_matters. Qed.
+Print Assumptions C19_every_state_kind_matters.
+
+Theorem C19_every_bad_origin_matters :
+  forall o : origin, (o = OStd \/ o = OUnresolved) ->
+    facts_ok (facts_with_origin o) = false
+    /\ exists s1 s2 : seed,
+         expand_model toy_ext (facts_with_origin o) s1 [] ex_input <> expand_model toy_ext (facts_with_origin o) s2 [] ex_input.
+Proof. exact Proofs.every_bad_origin_matters. Qed.
+Print Assumptions C19_every_bad_origin_matters.
+
+Theorem C19_every_bad_alias_matters :
+  forall a : alias_def, In a bad_aliases ->
+    facts_ok (facts_with_alias a) = false
+    /\ exists s1 s2 : seed,
+         expand_model toy_ext (facts_with_alias a) s1 [] ex_input <> expand_model toy_ext (facts_with_alias a) s2 [] ex_input.
+Proof. exact Proofs.every_bad_alias_matters. Qed.
+Print Assumptions C19_every_bad_alias_matters.
